@@ -31,6 +31,8 @@ def run_case(case):
                         recorder=ph['rec'])
             obs, _ = httpharn.run_http(spec, dict(cuts=ph.get('cuts', [])), workdir=wd)
             pobs.append(obs)
+            if ph.get('discard'):
+                continue        # an earlier run that the next phase overwrites
             for k, ex in enumerate(exs):
                 o = obs['ex'][k] if k < len(obs['ex']) else None
                 sent = ex['response'].encode('latin-1')
